@@ -52,6 +52,12 @@ static DataArray arrayWhere(File &f, const std::function<bool(DataArray &)> &pre
     throw NotEnabled();
 }
 
+// kind of the first entity line that differs between two observations (for signatures)
+static std::string first_kind(const std::string &p0, const std::string &p1) {
+    std::string d = obs::diff(p0, p1, 1); size_t p = d.find_first_not_of("+- ");
+    return p == std::string::npos ? std::string("?") : d.substr(p, d.find(' ', p) - p);
+}
+
 static std::vector<Rej> catalogue() {
     std::vector<Rej> v;
     auto add = [&](const std::string &n, std::function<void(File &)> fn) { v.push_back(Rej{n, fn}); };
@@ -426,6 +432,92 @@ int main(int argc, char **argv) {
     corpus("R1", 2, thorough ? 1 : 0);
     corpus("R2", 2, thorough ? 1 : 0);
     corpus("R3", 2, thorough ? 1 : 0);
+    // ---- stale link targets: the target of a link operation existed earlier in the session, was linked and unlinked through
+    //      the holder handle under test (so whatever that handle or its parent remembers about the id, it remembers it), and
+    //      has since been deleted through OTHER handles.  Linking it again - by id and by the stale handle - through the kept
+    //      holder handle must either be accepted or, if it is refused, leave no trace.  One scenario per link operation, on
+    //      copies of the rich seed R3.
+    {
+        struct Box { std::shared_ptr<void> h, t, o; std::string id; };
+        struct Stale { std::string name; std::function<void(File &, Box &)> setup, del; std::function<void(Box &)> by_id, by_handle; };
+        std::vector<Stale> sc;
+        #define HP(T, x) (*std::static_pointer_cast<T>(x))
+        auto keep_block = [](File &f, Box &b) { need(f.blockCount() > 0); b.o = std::make_shared<Block>(f.getBlock(0)); return HP(Block, b.o); };
+        auto new_array = [](Block kb, Box &b, const NDSize &shape = NDSize({3})) { DataArray t = kb.createDataArray("stale_target", "t", DataType::Double, shape); b.t = std::make_shared<DataArray>(t); b.id = t.id(); return t; };
+        auto del_array = [](File &f, Box &) { f.getBlock(0).deleteDataArray("stale_target"); };
+        sc.push_back({"Tag::addReference", [=](File &f, Box &b) { Block kb = keep_block(f, b); need(kb.tagCount() > 0); Tag h = kb.getTag(0); b.h = std::make_shared<Tag>(h); DataArray t = new_array(kb, b); h.addReference(t); h.removeReference(t); }, del_array,
+                      [](Box &b) { HP(Tag, b.h).addReference(b.id); }, [](Box &b) { HP(Tag, b.h).addReference(HP(DataArray, b.t)); }});
+        sc.push_back({"Tag::createFeature", [=](File &f, Box &b) { Block kb = keep_block(f, b); need(kb.tagCount() > 0); Tag h = kb.getTag(0); b.h = std::make_shared<Tag>(h); DataArray t = new_array(kb, b); Feature ft = h.createFeature(t, LinkType::Untagged); h.deleteFeature(ft); }, del_array,
+                      [](Box &b) { HP(Tag, b.h).createFeature(b.id, LinkType::Untagged); }, [](Box &b) { HP(Tag, b.h).createFeature(HP(DataArray, b.t), LinkType::Indexed); }});
+        sc.push_back({"MultiTag::addReference", [=](File &f, Box &b) { Block kb = keep_block(f, b); need(kb.multiTagCount() > 0); MultiTag h = kb.getMultiTag(0); b.h = std::make_shared<MultiTag>(h); DataArray t = new_array(kb, b); h.addReference(t); h.removeReference(t); }, del_array,
+                      [](Box &b) { HP(MultiTag, b.h).addReference(b.id); }, [](Box &b) { HP(MultiTag, b.h).addReference(HP(DataArray, b.t)); }});
+        sc.push_back({"MultiTag::createFeature", [=](File &f, Box &b) { Block kb = keep_block(f, b); need(kb.multiTagCount() > 0); MultiTag h = kb.getMultiTag(0); b.h = std::make_shared<MultiTag>(h); DataArray t = new_array(kb, b); Feature ft = h.createFeature(t, LinkType::Tagged); h.deleteFeature(ft); }, del_array,
+                      [](Box &b) { HP(MultiTag, b.h).createFeature(b.id, LinkType::Tagged); }, [](Box &b) { HP(MultiTag, b.h).createFeature(HP(DataArray, b.t), LinkType::Untagged); }});
+        sc.push_back({"MultiTag::positions", [=](File &f, Box &b) { Block kb = keep_block(f, b); need(kb.multiTagCount() > 0); MultiTag h = kb.getMultiTag(0); b.h = std::make_shared<MultiTag>(h); DataArray old = h.positions(); need(bool(old)); need(!h.extents()); DataArray t = new_array(kb, b, old.dataExtent()); h.positions(t); h.positions(old); }, del_array,
+                      [](Box &b) { HP(MultiTag, b.h).positions(b.id); }, [](Box &b) { HP(MultiTag, b.h).positions(HP(DataArray, b.t)); }});
+        sc.push_back({"MultiTag::extents", [=](File &f, Box &b) { Block kb = keep_block(f, b); need(kb.multiTagCount() > 0); MultiTag h = kb.getMultiTag(0); b.h = std::make_shared<MultiTag>(h); DataArray pos = h.positions(); need(bool(pos)); DataArray old = h.extents(); DataArray t = new_array(kb, b, pos.dataExtent()); h.extents(t); if (old) h.extents(old); else h.extents(nix::none); }, del_array,
+                      [](Box &b) { HP(MultiTag, b.h).extents(b.id); }, [](Box &b) { HP(MultiTag, b.h).extents(HP(DataArray, b.t)); }});
+        sc.push_back({"Group::addDataArray", [=](File &f, Box &b) { Block kb = keep_block(f, b); need(kb.groupCount() > 0); Group h = kb.getGroup(0); b.h = std::make_shared<Group>(h); DataArray t = new_array(kb, b); h.addDataArray(t); h.removeDataArray(t); }, del_array,
+                      [](Box &b) { HP(Group, b.h).addDataArray(b.id); }, [](Box &b) { HP(Group, b.h).addDataArray(HP(DataArray, b.t)); }});
+        sc.push_back({"Group::addTag", [=](File &f, Box &b) { Block kb = keep_block(f, b); need(kb.groupCount() > 0); Group h = kb.getGroup(0); b.h = std::make_shared<Group>(h); Tag t = kb.createTag("stale_target", "t", {0.0}); b.t = std::make_shared<Tag>(t); b.id = t.id(); h.addTag(t); h.removeTag(t); },
+                      [](File &f, Box &) { f.getBlock(0).deleteTag("stale_target"); }, [](Box &b) { HP(Group, b.h).addTag(b.id); }, [](Box &b) { HP(Group, b.h).addTag(HP(Tag, b.t)); }});
+        sc.push_back({"Group::addMultiTag", [=](File &f, Box &b) { Block kb = keep_block(f, b); need(kb.groupCount() > 0 && kb.dataArrayCount() > 0); Group h = kb.getGroup(0); b.h = std::make_shared<Group>(h); MultiTag t = kb.createMultiTag("stale_target", "t", kb.getDataArray(0)); b.t = std::make_shared<MultiTag>(t); b.id = t.id(); h.addMultiTag(t); h.removeMultiTag(t); },
+                      [](File &f, Box &) { f.getBlock(0).deleteMultiTag("stale_target"); }, [](Box &b) { HP(Group, b.h).addMultiTag(b.id); }, [](Box &b) { HP(Group, b.h).addMultiTag(HP(MultiTag, b.t)); }});
+        sc.push_back({"Group::addDataFrame", [=](File &f, Box &b) { Block kb = keep_block(f, b); need(kb.groupCount() > 0); Group h = kb.getGroup(0); b.h = std::make_shared<Group>(h); DataFrame t = kb.createDataFrame("stale_target", "t", std::vector<Column>{{"k", "", DataType::Int64}}); b.t = std::make_shared<DataFrame>(t); b.id = t.id(); h.addDataFrame(t); h.removeDataFrame(t); },
+                      [](File &f, Box &) { f.getBlock(0).deleteDataFrame("stale_target"); }, [](Box &b) { HP(Group, b.h).addDataFrame(b.id); }, [](Box &b) { HP(Group, b.h).addDataFrame(HP(DataFrame, b.t)); }});
+        sc.push_back({"DataArray::addSource", [=](File &f, Box &b) { Block kb = keep_block(f, b); need(kb.dataArrayCount() > 0); DataArray h = kb.getDataArray(0); b.h = std::make_shared<DataArray>(h); Source t = kb.createSource("stale_target", "t"); b.t = std::make_shared<Source>(t); b.id = t.id(); h.addSource(t); h.removeSource(t); },
+                      [](File &f, Box &) { f.getBlock(0).deleteSource("stale_target"); }, [](Box &b) { HP(DataArray, b.h).addSource(b.id); }, [](Box &b) { HP(DataArray, b.h).addSource(HP(Source, b.t)); }});
+        sc.push_back({"Tag::addSource", [=](File &f, Box &b) { Block kb = keep_block(f, b); need(kb.tagCount() > 0); Tag h = kb.getTag(0); b.h = std::make_shared<Tag>(h); Source t = kb.createSource("stale_target", "t"); b.t = std::make_shared<Source>(t); b.id = t.id(); h.addSource(t); h.removeSource(t); },
+                      [](File &f, Box &) { f.getBlock(0).deleteSource("stale_target"); }, [](Box &b) { HP(Tag, b.h).addSource(b.id); }, [](Box &b) { HP(Tag, b.h).addSource(HP(Source, b.t)); }});
+        sc.push_back({"Block::metadata", [=](File &f, Box &b) { Block h = keep_block(f, b); b.h = b.o; Section old = h.metadata(); Section t = f.createSection("stale_target", "t"); b.t = std::make_shared<Section>(t); b.id = t.id(); h.metadata(t); if (old) h.metadata(old); else h.metadata(nix::none); },
+                      [](File &f, Box &) { f.deleteSection("stale_target"); }, [](Box &b) { HP(Block, b.h).metadata(b.id); }, [](Box &b) { HP(Block, b.h).metadata(HP(Section, b.t)); }});
+        sc.push_back({"DataArray::metadata", [=](File &f, Box &b) { Block kb = keep_block(f, b); need(kb.dataArrayCount() > 0); DataArray h = kb.getDataArray(0); b.h = std::make_shared<DataArray>(h); Section old = h.metadata(); Section t = f.createSection("stale_target", "t"); b.t = std::make_shared<Section>(t); b.id = t.id(); h.metadata(t); if (old) h.metadata(old); else h.metadata(nix::none); },
+                      [](File &f, Box &) { f.deleteSection("stale_target"); }, [](Box &b) { HP(DataArray, b.h).metadata(b.id); }, [](Box &b) { HP(DataArray, b.h).metadata(HP(Section, b.t)); }});
+        sc.push_back({"Section::link", [=](File &f, Box &b) { need(f.sectionCount() > 0); Section h = f.getSection(0); b.h = std::make_shared<Section>(h); Section old = h.link(); Section t = f.createSection("stale_target", "t"); b.t = std::make_shared<Section>(t); b.id = t.id(); h.link(t); if (old) h.link(old); else h.link(nix::none); },
+                      [](File &f, Box &) { f.deleteSection("stale_target"); }, [](Box &b) { HP(Section, b.h).link(b.id); }, [](Box &b) { HP(Section, b.h).link(HP(Section, b.t)); }});
+        sc.push_back({"DataArray::appendDataFrameDimension", [=](File &f, Box &b) { Block kb = keep_block(f, b); DataArray h = kb.createDataArray("stale_holder", "t", DataType::Double, NDSize({2})); b.h = std::make_shared<DataArray>(h); DataFrame t = kb.createDataFrame("stale_target", "t", std::vector<Column>{{"k", "", DataType::Int64}}); t.rows(2); b.t = std::make_shared<DataFrame>(t); b.id = t.id(); h.appendDataFrameDimension(t); h.deleteDimensions(); },
+                      [](File &f, Box &) { f.getBlock(0).deleteDataFrame("stale_target"); }, [](Box &b) { HP(DataArray, b.h).appendDataFrameDimension(HP(DataFrame, b.t), 0u); }, [](Box &b) { HP(DataArray, b.h).appendDataFrameDimension(HP(DataFrame, b.t)); }});
+        #undef HP
+        for (size_t i = 0; i < sc.size(); i++) for (const char *seedn : {"R3", "R1"}) {
+            long cid = caseno++;
+            if (!vf::take_case(cid)) continue;
+            vf::case_desc("stale link target: " + sc[i].name + " on seed " + seedn);
+            const std::string p = vf::scratch_file("stale.h5");
+            ops::copy_file(E.seed(seedn).path, p);
+            vf::set_clock(E.clock0 + 50);
+            File f = File::open(p, FileMode::ReadWrite);
+            Box box; std::string what;
+            std::string exc;
+            try { sc[i].setup(f, box); sc[i].del(f, box); } catch (const NotEnabled &) { exc = "notenabled"; } catch (const std::exception &e) { exc = std::string("exc:") + e.what(); }
+            vf::count("stale_target_scenarios");
+            if (!exc.empty()) { vf::distinct("outcomes", "stale|" + sc[i].name + "|setup " + (exc == "notenabled" ? exc : std::string("refused"))); box = Box(); f.close(); continue; }
+            std::string pre = E.canon(f);
+            bool all_rejected = true;
+            for (int form = 0; form < 2; form++) {
+                vf::set_clock(E.clock0 + 60 + form);
+                std::string r = vf::guarded([&] { if (form == 0) sc[i].by_id(box); else sc[i].by_handle(box); }, &what);
+                vf::count("calls");
+                vf::distinct("outcomes", "stale|" + sc[i].name + (form ? "(stale handle)" : "(id)") + "|" + (r.empty() ? "accepted" : r));
+                if (r.empty()) { vf::count("calls_accepted"); all_rejected = false; break; }     // accepting is not a C08 matter
+                vf::count("calls_rejected");
+                std::string post = E.canon(f);
+                if (post != pre) {
+                    vf::violation("C08|" + sc[i].name + (form ? "(handle of an entity deleted earlier in the session)" : "(id of an entity deleted earlier in the session)") + "|rejected with " + r + "|state changed|" + first_kind(pre, post),
+                                  std::string("seed ") + seedn + ": the target was linked and unlinked through the kept holder handle, then deleted through another handle; " + what, obs::diff(pre, post));
+                    all_rejected = false; break;
+                }
+            }
+            box = Box();
+            f.close();
+            if (all_rejected) {
+                File g = File::open(p, FileMode::ReadOnly);
+                std::string ro = E.canon(g);
+                g.close();
+                vf::count("reopen_checks");
+                if (ro != pre) vf::violation("C08|" + sc[i].name + "(stale link target)|rejected|state changed after reopen|" + first_kind(pre, ro), std::string("seed ") + seedn, obs::diff(pre, ro));
+            }
+        }
+    }
     vf::note("catalogue_size", std::to_string(cat.size()));
     { std::vector<std::string> names; for (auto &c : cat) names.push_back(c.name); vf::note("catalogue", vf::jvecs(names)); }
     return vf::finish();
